@@ -530,14 +530,14 @@ func runItem(b *batch, from int, prog *progress, itemIdx int, touchEvery int) *i
 			dd := d
 			res.Sample = &dd
 		}
-		// signature = engine:class:pages=<class>[:end==2^32]:<op class>:mem=<kind>; for spurious out-of-bounds traps the
-		// memory kind is the discriminating attribute and comes first (and the end marker is irrelevant).
+		// signature = engine:class:pages=<class>[:end==2^32]:<op class>:mem=<kind>; for out-of-bounds traps the reference
+		// does not allow, the memory kind is the discriminating attribute and comes first (no end marker).
 		violated := false
 		viol := func(class, what string) {
 			violated = true
 			pc := "pages=" + pagesClass(in.m.size/wasmPage)
 			var attrs string
-			if class == "spurious-oob" {
+			if class == "spurious-oob" || class == "wrong-trap-oob" {
 				attrs = fmt.Sprintf("%s:mem=%s:%s", pc, memKindNames[b.Kind], s.Op.Class)
 			} else {
 				if exp.AccRan && exp.EA+s.width() == 1<<32 {
@@ -549,9 +549,14 @@ func runItem(b *batch, from int, prog *progress, itemIdx int, touchEvery int) *i
 		}
 		// 1. outcome
 		outcome := ""
+		poisoned := false
 		if err != nil {
 			k := classifyErr(err)
 			outcome = "trap:" + k
+			// a failure that is not a wasm trap (recovered Go panic, ...) may leave the instance inconsistent - e.g. the
+			// interpreter's atomic operations panic while holding the memory mutex and every later atomic operation on
+			// that memory would deadlock: continue with a fresh instance so that the next cases are not blamed.
+			poisoned = k == "go-panic" || k == "error"
 			switch {
 			case len(exp.Traps) == 0:
 				if k == tOOB {
@@ -600,6 +605,13 @@ func runItem(b *batch, from int, prog *progress, itemIdx int, touchEvery int) *i
 		if len(in.alloc.notes) > 0 {
 			res.Notes = append(res.Notes, in.alloc.notes...)
 			in.alloc.notes = nil
+		}
+		if poisoned {
+			if !in.m.small {
+				touchCheck(c)
+			}
+			in.close()
+			in.open()
 		}
 		// 3. page-granular guard for large memories
 		if !in.m.small {
